@@ -326,6 +326,10 @@ func (ex *Exec) scanCall(c *ssa.CallCommon, ms *modSet, isGo bool) {
 	// interface method or function value: counters only (frame assumption F1),
 	// plus effects of context-related externals
 	ms.cnt[name] = true
+	if !c.IsInvoke() && isCancelFuncType(c.Value.Type()) {
+		ms.arr["ctxdone"] = true
+		return
+	}
 	if !c.IsInvoke() {
 		ms.cnt["fnfield:*"] = true
 		for _, w := range externalWrites["fnfield:*"] {
